@@ -12,7 +12,8 @@ RULE = ("case = (grammar, closed tree, two constraints f and g from the C03 gene
         "objects are obtained by parse_isla and, when 'nary' is set, rebuilt with the class constructors so that nested "
         "binary conjunctions/disjunctions become n-ary ConjunctiveFormula/DisjunctiveFormula (arity up to 6) anywhere in "
         "the formula; judged rewrites: -f, -(-f), NegatedFormula(f), convert_to_nnf(f), convert_to_nnf(f, negate=True), "
-        "convert_to_dnf(nnf) deep and shallow, ensure_unique_bound_variables(f), f & g, f | g; each rewritten formula is "
+        "convert_to_dnf(nnf) deep and shallow, ensure_unique_bound_variables(f) on the parsed formula AND on the formula as "
+        "written (parsed with the renaming switched off, incl. a template with sibling variables x / x_0), f & g, f | g; each rewritten formula is "
         "evaluated on the tree and compared with the verdict the reference semantics assigns (negated where the rewrite "
         "negates), plus structural post-conditions (NNF: negations only on atoms; shallow DNF: disjunction of "
         "conjunctions of non-disjunctions; renaming: pairwise distinct bound names); non-trivial = f contains a "
